@@ -119,8 +119,10 @@ theorem row_kept_iff_spelled (ifNone : Bool) (ds : Table) (hasData : Bool) (toda
   have hnone : (ds.jcellAt "data" i).isNone = false ↔ ds.jcellAt "data" i ≠ .none := by
     cases ds.jcellAt "data" i <;> simp [Cell.isNone]
   simp only [expiryCovered, Bool.or_eq_true, beq_iff_eq, Option.isSome_iff_exists] at hc
-  rcases hc with h | ⟨us, h⟩
+  rcases hc with (h | h) | ⟨us, h⟩
   · simp [rowRuns, h, runExpiry, expiryDate]
+  · have hd : expiryDate (.str "NaT") = none := by decide
+    simp [rowRuns, h, runExpiry, hd]
   · simp only [rowRuns, runExpiry_of_date today _ us h, h, Bool.or_eq_false_iff, Bool.not_eq_false',
       decide_eq_false_iff_not, Int.not_le, Option.some.injEq, exists_eq_left', Bool.and_eq_false_imp,
       hnone, and_assoc]
